@@ -61,6 +61,28 @@ pub mod sync {
         pub fn compare_exchange(&self, cur: usize, new: usize, s: Ordering, f: Ordering) -> Result<usize, usize> {
             self.0.compare_exchange(cur, new, s, f)
         }
+        pub fn compare_exchange_weak(&self, cur: usize, new: usize, s: Ordering, f: Ordering) -> Result<usize, usize> {
+            // no spurious failures: a retry loop around them adds nothing to the interleavings
+            self.0.compare_exchange(cur, new, s, f)
+        }
+        pub fn swap(&self, v: usize, o: Ordering) -> usize {
+            self.0.swap(v, o)
+        }
+        pub fn fetch_update<F: FnMut(usize) -> Option<usize>>(&self, s: Ordering, f: Ordering, g: F) -> Result<usize, usize> {
+            self.0.fetch_update(s, f, g)
+        }
+        pub fn fetch_add(&self, v: usize, o: Ordering) -> usize {
+            self.0.fetch_add(v, o)
+        }
+        pub fn fetch_sub(&self, v: usize, o: Ordering) -> usize {
+            self.0.fetch_sub(v, o)
+        }
+        pub fn fetch_or(&self, v: usize, o: Ordering) -> usize {
+            self.0.fetch_or(v, o)
+        }
+        pub fn fetch_and(&self, v: usize, o: Ordering) -> usize {
+            self.0.fetch_and(v, o)
+        }
     }
 }
 
@@ -352,7 +374,77 @@ fn m_round_trip_then_second_ping() {
     }
 }
 
+/// The connection is gone for good (its PingPong was dropped and the dropping thread joined): whatever the user handle does
+/// from now on must end in an error within a few steps - a pong that had already arrived may still be handed over, but a
+/// Pending now is a hang (nobody is left to wake it) and a further ping must not be accepted and then wait for ever.
+fn user_finishes_after_end(users: &proto::ping_pong::UserPings, cx: &mut Context, what: &str) {
+    for _round in 0..3 {
+        match users.poll_pong(cx) {
+            Poll::Ready(Err(_)) => return,
+            Poll::Pending => panic!("HANG ({}): the connection is gone and poll_pong returned Pending; nobody is left to wake it", what),
+            Poll::Ready(Ok(())) => match users.send_ping() {
+                Err(Some(_)) => return,
+                Err(None) => panic!("send_ping reported a user error (ping already pending) right after a pong was handed over ({})", what),
+                Ok(()) => {}
+            },
+        }
+    }
+    panic!("the user handle of an ended connection keeps handing out pongs ({})", what);
+}
+
+/// The pong arrives and the connection goes away (both on the connection thread) while the user polls for the pong and,
+/// if it got it, sends the next ping. Afterwards the handle must report the end (C07: pending and subsequent operations).
+fn m_end_after_pong() {
+    ITER.fetch_add(1, StdOrdering::Relaxed);
+    let (mut pp, users, _codec) = setup_pending_pong();
+    let conn = loom::thread::spawn(move || {
+        let _ = pp.recv_ping(Ping::pong(Ping::USER));
+        drop(pp);
+    });
+    let (uf, uw) = flag();
+    let mut cx = Context::from_waker(&uw);
+    let first = users.poll_pong(&mut cx);
+    let second = if matches!(first, Poll::Ready(Ok(()))) { Some(users.send_ping()) } else { None };
+    conn.join().unwrap();
+    if first.is_pending() {
+        assert!(is_set(&uf), "HANG: pong received and connection gone, poll_pong had returned Pending and its waker was never called");
+    }
+    if let Some(Err(None)) = second {
+        panic!("send_ping reported a user error right after a pong was handed over");
+    }
+    user_finishes_after_end(&users, &mut cx, "pong received, then connection dropped");
+}
+
+/// as above, the user does nothing until the connection is gone: one model per state the handle can be in at that moment
+fn m_end_in_every_state() {
+    ITER.fetch_add(1, StdOrdering::Relaxed);
+    for state in 0..4 {
+        let mut pp = PingPong::new();
+        let users = pp.take_user_pings().unwrap();
+        let (_f, w) = flag();
+        let mut cx = Context::from_waker(&w);
+        let mut codec: C = Codec::new(true);
+        if state >= 1 {
+            assert!(users.send_ping().is_ok());
+        }
+        if state >= 2 {
+            let _ = pp.send_pending_ping(&mut cx, &mut codec);
+        }
+        if state >= 3 {
+            let _ = pp.recv_ping(Ping::pong(Ping::USER));
+        }
+        // the drop happens on another thread (as when the connection task is on another worker)
+        let conn = loom::thread::spawn(move || drop(pp));
+        conn.join().unwrap();
+        let (_uf, uw) = flag();
+        let mut ucx = Context::from_waker(&uw);
+        user_finishes_after_end(&users, &mut ucx, ["idle", "ping not yet written", "waiting for the pong", "pong received, not yet polled"][state]);
+    }
+}
+
 const MODELS: &[(&str, fn())] = &[
+    ("end-after-pong", m_end_after_pong),
+    ("end-in-every-state", m_end_in_every_state),
     ("send_ping-vs-connection-poll", m_send_ping_vs_connection_poll),
     ("send_ping-vs-connection-poll-codec-full", m_send_ping_vs_connection_poll_codec_full),
     ("pong-vs-poll_pong", m_pong_vs_poll_pong),
